@@ -408,6 +408,66 @@ def _norm_pat(p):
     return q
 
 
+_INT_TYS = {'i8', 'i16', 'i32', 'i64', 'i128', 'isize', 'u8', 'u16', 'u32', 'u64', 'u128', 'usize'}
+_ORD_OP = {'Less': 'Lt', 'Equal': 'Eq', 'Greater': 'Gt'}
+
+
+def _ord_variants(p):
+    """the Ordering variants a pattern accepts, '*' for a catch-all, None if it is something else"""
+    k = p.get('k')
+    if k in ('Wild',):
+        return '*'
+    if k == 'Binding' and not p.get('ch'):
+        return '*'
+    if k == 'Expr':
+        p = p.get('e', {})
+        k = p.get('k')
+    if k == 'Path' and strip_generics(p.get('def') or '').startswith(('std::cmp::Ordering::', 'core::cmp::Ordering::')):
+        return [strip_generics(p['def']).split('::')[-1]]
+    if k == 'Or':
+        out = []
+        for q in p.get('ch', []):
+            v = _ord_variants(q)
+            if v is None or v == '*':
+                return v
+            out += v
+        return out
+    return None
+
+
+def _int_cmp_match(e):
+    scr = peel(e['ch'][0])
+    if scr.get('k') != 'MethodCall' or scr.get('method') != 'cmp' or not callee_is(scr, 'Ord::cmp') or \
+            (scr.get('targs') or ['?'])[0] not in _INT_TYS or len(scr['ch']) != 2:
+        return None
+    a, b = scr['ch'][0], scr['ch'][1]
+    if peel(b).get('k') == 'AddrOf':
+        b = peel(b)['ch'][0]
+    arms = e.get('arms', [])
+    if not arms or any(x.get('guard') for x in arms):
+        return None
+    vs = [_ord_variants(x['pat']) for x in arms]
+    if any(v is None for v in vs):
+        return None
+
+    def rel(v):
+        c = None
+        for name in v:
+            r = {'k': 'Binary', 'op': _ORD_OP[name], 'ch': [a, b], 'ty': 'bool', 'sp': scr.get('sp')}
+            c = r if c is None else {'k': 'Binary', 'op': 'Or', 'ch': [c, r], 'ty': 'bool', 'sp': scr.get('sp')}
+        return c
+    out = arms[-1]['body']
+    for x, v in zip(reversed(arms[:-1]), reversed(vs[:-1])):
+        if v == '*':
+            out = x['body']
+            continue
+        out = {'k': 'If', 'ch': [rel(v), x['body'], out], 'ty': e.get('ty'), 'sp': e.get('sp'), 'id': e.get('id')}
+    if e.get('adj') and isinstance(out, dict):
+        out = dict(out)
+        out.setdefault('adj', e['adj'])
+    return out
+
+
 def _only_break(b):
     """a block that does nothing but `break` (no label, no value)"""
     b = peel(b)
@@ -470,6 +530,12 @@ def normalize(e):
         except (KeyError, IndexError):
             pass
         return e
+    # `match a.cmp(&b) { Less => X, Equal => Y, Greater => Z }` on integers is an if-chain on
+    # `a < b`, `a == b`, `a > b` (arms in order; the last arm takes what is left)
+    if k == 'Match' and e.get('src') in (None, 'Normal'):
+        r = _int_cmp_match(e)
+        if r is not None:
+            return r
     # `loop { if c { break; } rest }` is `while !c { rest }`
     if k == 'Loop' and e.get('src') != 'While':
         blk = e['ch'][0] if e.get('ch') else {}
